@@ -119,6 +119,20 @@ static void origin(const Case &c) {
         err = cellsToDirectedEdge(a, c.q, &dummy);
         CHECK(err == E_NOT_NEIGHBORS, "not-neighbours", "cellsToDirectedEdge(%016llx,%016llx) returned %u for non-adjacent cells", (unsigned long long)a, (unsigned long long)c.q, err);
     }
+    {   // cells of another resolution are never neighbours: parent, centre child, a neighbour's parent / centre child, in both argument orders
+        int ra = ref::res_of(a);
+        std::vector<H3Index> other;
+        if (ra > 0) { other.push_back(ref::parent(a, ra - 1)); if (!nb.empty()) other.push_back(ref::parent(nb[0], ra - 1)); }
+        if (ra > 1) other.push_back(ref::parent(a, 0));
+        if (ra < 15) { other.push_back(ref::center_child(a, ra + 1)); if (!nb.empty()) other.push_back(ref::center_child(nb[nb.size() - 1], ra + 1)); }
+        if (ra < 14) other.push_back(ref::center_child(a, 15));
+        for (H3Index x : other) {
+            err = cellsToDirectedEdge(a, x, &dummy);
+            CHECK(err == E_NOT_NEIGHBORS, "not-neighbours", "cellsToDirectedEdge(%016llx,%016llx) returned %u for cells of different resolutions (never neighbours)", (unsigned long long)a, (unsigned long long)x, err);
+            err = cellsToDirectedEdge(x, a, &dummy);
+            CHECK(err == E_NOT_NEIGHBORS, "not-neighbours", "cellsToDirectedEdge(%016llx,%016llx) returned %u for cells of different resolutions (never neighbours)", (unsigned long long)x, (unsigned long long)a, err);
+        }
+    }
     if (special) NONTRIVIAL();
     COUNT("origin");
     if (pent) COUNT("origin.pentagon");
